@@ -153,6 +153,17 @@ Proof. reflexivity. Qed.
 Lemma sec_of_hdr s x : s_hdr (sec_of s x) = exp_shdr s (snd x). Proof. reflexivity. Qed.
 Lemma sec_of_name s x : s_name (sec_of s x) = fst x. Proof. reflexivity. Qed.
 
+Lemma index_by_name_nth s name j : exp_index_by_name s name = Some j ->
+  exists x, nth_sec s j = Some x /\ fst x = name.
+Proof.
+  intros H. unfold exp_index_by_name in H.
+  destruct (index_of_last_some name _ _ _ H) as (Hr & (x & Hx & Hn) & _).
+  exists x. split; [|exact Hn]. unfold nth_sec, n_sections.
+  destruct (Z.leb_spec 0 j) as [_|E]; [|lia].
+  destruct (Z.ltb_spec j (zlen (i_sections s))) as [_|E]; [|lia].
+  cbn [andb]. rewrite Z.sub_0_r in Hx. exact Hx.
+Qed.
+
 Section WF.
 Variable img : list Z.
 Variable s : image_spec.
@@ -393,17 +404,6 @@ Proof.
   rewrite Hm. cbn [bind]. rewrite memb_keys_get, Hg. reflexivity.
 Qed.
 
-Lemma index_by_name_nth name j : exp_index_by_name s name = Some j ->
-  exists x, nth_sec s j = Some x /\ fst x = name.
-Proof.
-  intros H. unfold exp_index_by_name in H.
-  destruct (index_of_last_some name _ _ _ H) as (Hr & (x & Hx & Hn) & _).
-  exists x. split; [|exact Hn]. unfold nth_sec, n_sections.
-  destruct (Z.leb_spec 0 j) as [_|E]; [|lia].
-  destruct (Z.ltb_spec j (zlen (i_sections s))) as [_|E]; [|lia].
-  cbn [andb]. rewrite Z.sub_0_r in Hx. exact Hx.
-Qed.
-
 Lemma section_by_name_ok name :
   get_section_by_name EF name =
   Ok (match exp_index_by_name s name with
@@ -414,7 +414,7 @@ Proof.
   destruct (name_map_lookup name) as (m & Hm & Hg). unfold get_section_by_name.
   rewrite Hm. cbn [bind]. rewrite Hg.
   destruct (exp_index_by_name s name) as [j|] eqn:E; [|reflexivity].
-  destruct (index_by_name_nth name j E) as (x & Hx & _). rewrite Hx.
+  destruct (index_by_name_nth s name j E) as (x & Hx & _). rewrite Hx.
   rewrite (get_section_ok img s Hwf j x Hx). reflexivity.
 Qed.
 End WF.
